@@ -82,8 +82,14 @@ class Stack(object):
         self.post = chi.PosteriorPredictiveModel(self.pred, self.ds1)
         self.post2 = chi.PosteriorPredictiveModel(
             chi.PredictiveModel(self.m, self.errs), self.ds2)
-        self.pam = chi.PAMPredictiveModel(
-            [self.post, self.post2], r.get('weights', [0.5, 0.5]))
+        self.ds3 = posterior_dataset(
+            names, dict(r['posterior'], seed=r['posterior']['seed'] + 13),
+            scale=0.6)
+        self.post3 = chi.PosteriorPredictiveModel(
+            chi.PredictiveModel(self.m, self.errs), self.ds3)
+        w = list(r.get('weights', [0.5, 0.5]))
+        models = [self.post, self.post2, self.post3][:len(w)]
+        self.pam = chi.PAMPredictiveModel(models, w)
         self.prior_obj = zoo.build_prior(
             {'n': self.pred.n_parameters(), 'kind': 'lognormal', 'a': -0.3,
              'b': 0.2})
@@ -356,7 +362,8 @@ def run(scenario, world):
                 args['covariates'] = [cv[i % len(cv)]
                                       for i in range(args['n_samples'])]
             preds = [main.pred] if kind in ('prior', 'post') else (
-                [main.post._predictive_model, main.post2._predictive_model]
+                [main.post._predictive_model, main.post2._predictive_model,
+                 main.post3._predictive_model]
                 if kind == 'pam' else [])
             prior_draws = []
             if kind == 'prior':
@@ -434,19 +441,19 @@ def run(scenario, world):
                     ind = args.get('individual') or 'a'
                     names = main.pred.get_parameter_names()
                     w = scenario['recipes'].get('weights', [0.5, 0.5])
+                    dss = [main.ds1, main.ds2, main.ds3][:len(w)]
                     for idx, vec in ic.calls:
-                        in1 = joint_row(main.ds1, names, ind, vec)
-                        in2 = joint_row(main.ds2, names, ind, vec)
-                        if not (in1 or in2):
+                        hit = [joint_row(d_, names, ind, vec) for d_ in dss]
+                        if not any(hit):
                             raise Violation(
                                 'joint_draw.averaged', 'not_a_row',
-                                'vector %s is a row of neither posterior'
+                                'vector %s is a row of no posterior'
                                 % vec.tolist(), step)
-                        if (in1 and w[0] == 0) or (in2 and w[1] == 0):
+                        if any(h_ and w[i] == 0 for i, h_ in enumerate(hit)):
                             raise Violation(
                                 'joint_draw.averaged', 'zero_weight_chosen',
                                 'weights %s but a row of model %d was used'
-                                % (w, 1 if in1 else 2), step)
+                                % (w, hit.index(True) + 1), step)
                     if len(ic.calls) != args['n_samples']:
                         raise Violation(
                             'joint_draw.averaged', 'count',
@@ -534,7 +541,8 @@ def generate(rng, index, tier):
                'posterior': {'seed': rng.randint(0, 1000), 'chains': 2,
                              'draws': rng.randint(2, 4), 'ids': ['a', 'b']},
                'weights': rng.choice([[0.5, 0.5], [0.3, 0.7], [1.0, 0.0],
-                                      [0.0, 2.0]])}
+                                      [0.0, 2.0], [0.3, 0.3, 0.4],
+                                      [0.5, 0.0, 0.5], [1.0, 1.0, 2.0]])}
     args = []
     for _ in range(3):
         ts = [round(rng.uniform(0.2, 5), 1)
